@@ -61,7 +61,7 @@ RFlags(nc, oic) == (IF nc THEN <<"no-cache">> ELSE <<>>) \o (IF oic THEN <<"only
 VProbes ==
   { [Rq0 EXCEPT !.fl = RFlags(nc, oic), !.ma = a, !.ms = s, !.sie = e]
       : nc \in BOOLEAN, oic \in BOOLEAN, a \in {None, 0, 4},
-        s \in (IF Thorough THEN {None, NoArg, 5} ELSE {None, 5}), e \in {None, 10} }
+        s \in (IF Thorough THEN {None, NoArg, 5} ELSE {None, 5}), e \in {None, 1, 10} }
 
 Stored == IF Family = "F" THEN FStored ELSE VStored
 Probes == IF Family = "F" THEN FProbes ELSE VProbes
@@ -70,13 +70,16 @@ Probes == IF Family = "F" THEN FProbes ELSE VProbes
 A304 == [A0 EXCEPT !.k = "304", !.st = 304, !.ccp = 1, !.ma = 50, !.etag = 1, !.upd = 1]
 A200 == [A0 EXCEPT !.ccp = 1, !.ma = 60, !.etag = 2]
 AErr == [A0 EXCEPT !.k = "err"]
+AErrSlow == [A0 EXCEPT !.k = "err", !.lat = 3]      \* a failure that takes its time straddles the stale-if-error window
 A5xx(s) == [A0 EXCEPT !.st = s]
+A5xxSlow == [A0 EXCEPT !.st = 503, !.lat = 3]
 A5xxSie == [A0 EXCEPT !.st = 503, !.ccp = 1, !.sie = 1000]
 
 Answers ==
   IF ex.purpose = "reval" /\ (ex.stored.rep.etag > 0 \/ ex.stored.rep.lm >= 0)
     THEN IF Family = "F" THEN {A304, A200}
-         ELSE IF Thorough THEN {A304, A200, AErr, A5xx(500), A5xx(503), A5xx(404), A5xxSie} ELSE {A304, A200, AErr, A5xx(503), A5xx(404)}
+         ELSE IF Thorough THEN {A304, A200, AErr, AErrSlow, A5xx(500), A5xx(503), A5xxSlow, A5xx(404), A5xxSie}
+         ELSE {A304, A200, AErr, AErrSlow, A5xx(503), A5xx(404)}
   ELSE IF ex.purpose = "reval" THEN (IF Family = "F" THEN {A200} ELSE {A200, AErr, A5xx(503)})
   ELSE {A200}
 BgAnswers ==
